@@ -40,6 +40,15 @@ CHECKS = {
             'libxml2 and the XPath 1.0 model agree); round-trip and reconstruction laws are checked engine-against-engine.',
             'Trusted: rv/models/strings.py, CPython str case mapping, libxml2; only codepoint and html-ascii collations can run (C locale only).',
             'DESIGN.md section 4 (C09)'),
+    'C10': ('exploration',
+            'runtime multi-observer agreement monitor: independent XSD lexical recogniser vs constructor / is_valid / castable / cast / xs:T() + casting-table model',
+            'For ~45 built-in types and generated valid and near-valid strings, five observers of the real code (datatype constructor, '
+            'is_valid, castable as, cast as, xs:T()) must agree with each other and with an independent transcription of the XSD lexical '
+            'spaces (XSD 1.0 and 1.1); canonical strings must be fixed points with equal value and hash and equal the XSD/F&O canonical '
+            'form; casts over the F&O casting table must agree across the three forms and preserve the value.',
+            'Trusted: rv/models/lexical.py; xs:NOTATION skipped; QName limited to simple prefixes; name characters outside an '
+            'edition-independent alphabet and XSD 1.0 BCE leap years are undecided.',
+            'DESIGN.md section 4 (C10)'),
     'C13': ('exploration',
             'runtime shadow-model monitor over operation histories + exhaustive table comparison with unicodedata',
             'Every UnicodeSubset/CharacterClass state reached by random operation histories is compared, after every '
